@@ -166,7 +166,7 @@ def document_pipeline(ctx: Ctx, I: Interp) -> None:
     prog = ctx.prog
     where = f"{CORE}:HTMLDocument._gen_html_tag_tree"
     fn = prog.function(CORE, "HTMLDocument._gen_html_tag_tree")
-    ps = [a.arg for a in fn.args.args]
+    ps = [a.arg for a in fn.args.args + fn.args.kwonlyargs]
     cfg = Config()
     cfg.opaque_all = True
 
@@ -220,7 +220,7 @@ def document_pipeline(ctx: Ctx, I: Interp) -> None:
     # _hoist_head_content reads the dependencies of the tree it was given
     where2 = f"{CORE}:HTMLDocument._hoist_head_content"
     fn2 = prog.function(CORE, "HTMLDocument._hoist_head_content")
-    ps2 = [a.arg for a in fn2.args.args]
+    ps2 = [a.arg for a in fn2.args.args + fn2.args.kwonlyargs]
 
     def mk2(run: Any):
         x = SObj(ps2[0], {"TAG"})
